@@ -285,6 +285,181 @@ def status_binary(tree):
     return name == "open_binary"
 
 
+# ------------------------------------------------------------------ extension: code around the parsers
+
+def tmap_facts(snap):
+    """_psposix.get_terminal_map: glob patterns, FileNotFoundError guard, S_ISCHR test, @memoize."""
+    tree = extract.parse_module(snap, "_psposix.py")
+    fn = extract.find_def(tree, "get_terminal_map")
+    out = {"memoized": "memoize" in extract.decorators(fn)}
+    globs = None
+    for st in ast.walk(fn):
+        if isinstance(st, ast.Assign) and len(st.targets) == 1 and _is_name(st.targets[0], "ls"):
+            parts, todo = [], [st.value]
+            while todo:
+                n = todo.pop(0)
+                if isinstance(n, ast.BinOp) and isinstance(n.op, ast.Add):
+                    todo = [n.left, n.right] + todo
+                elif isinstance(n, ast.Call) and extract.dotted(n.func) == "glob.glob" and len(n.args) == 1 and not n.keywords:
+                    v = extract.const(n.args[0])
+                    if not isinstance(v, str):
+                        raise NotRecognised("glob pattern %r" % (v,))
+                    parts.append(v)
+                else:
+                    raise NotRecognised("ls = %s" % ast.unparse(st.value))
+            globs = parts
+    if globs is None:
+        raise NotRecognised("get_terminal_map: `ls = glob.glob(..) + ..` not found")
+    out["globs"] = globs
+    loops = [n for n in fn.body if isinstance(n, ast.For)]
+    if len(loops) != 1 or not _is_name(loops[0].iter, "ls") or not _is_name(loops[0].target, "name"):
+        raise NotRecognised("get_terminal_map: loop over ls")
+    loop = loops[0]
+    src = ast.unparse(loop)
+    stores = [n for n in ast.walk(loop) if isinstance(n, ast.Assign) and isinstance(n.targets[0], ast.Subscript)
+              and _is_name(n.targets[0].value, "ret")]
+    if len(stores) != 1 or not _is_name(stores[0].value, "name"):
+        raise NotRecognised("get_terminal_map: stores into ret: %s" % [ast.unparse(x) for x in stores])
+    key = ast.unparse(stores[0].targets[0].slice)
+    if key not in ("os.stat(name).st_rdev", "st.st_rdev"):
+        raise NotRecognised("get_terminal_map: key %s" % key)
+    if key == "st.st_rdev" and "st = os.stat(name)" not in src:
+        raise NotRecognised("get_terminal_map: st is not os.stat(name)")
+    # the os.stat call must sit in a try whose only handler is FileNotFoundError: pass/continue
+    guarded = False
+    for t in ast.walk(loop):
+        if isinstance(t, ast.Try) and "os.stat(name)" in "".join(ast.unparse(b) for b in t.body):
+            hs = t.handlers
+            if len(hs) == 1 and hs[0].type is not None and extract.dotted(hs[0].type) == "FileNotFoundError" \
+                    and all(isinstance(b, (ast.Pass, ast.Continue)) for b in hs[0].body):
+                guarded = True
+            else:
+                raise NotRecognised("get_terminal_map: handlers %s" % [ast.unparse(h) for h in hs])
+    out["skipsVanished"] = guarded
+    chr_calls = [c for c in ast.walk(loop) if isinstance(c, ast.Call) and extract.dotted(c.func) in ("stat.S_ISCHR", "S_ISCHR")]
+    if chr_calls:
+        # recognised shape: the store is the body of `if stat.S_ISCHR(st.st_mode):`
+        ok = False
+        for i in ast.walk(loop):
+            if isinstance(i, ast.If) and ast.unparse(i.test) in ("stat.S_ISCHR(st.st_mode)", "S_ISCHR(st.st_mode)") \
+                    and stores[0] in i.body and not i.orelse:
+                ok = True
+        if not ok:
+            raise NotRecognised("get_terminal_map: S_ISCHR used in an unknown way")
+    out["checksChr"] = bool(chr_calls)
+    return out
+
+
+def boot_time_facts(tree):
+    fn = extract.find_def(tree, "boot_time")
+    keys = [c for c in ast.walk(fn) if isinstance(c, ast.Call) and isinstance(c.func, ast.Attribute)
+            and c.func.attr == "startswith" and _is_name(c.func.value, "line")]
+    if len(keys) != 1 or len(keys[0].args) != 1:
+        raise NotRecognised("boot_time: startswith calls")
+    key = _bytes_const(keys[0].args[0])
+    idx = None
+    for c in ast.walk(fn):
+        if isinstance(c, ast.Call) and extract.dotted(c.func) == "float" and len(c.args) == 1:
+            a = c.args[0]
+            if isinstance(a, ast.Subscript) and ast.unparse(a.value) == "line.strip().split()":
+                idx = extract.const(a.slice)
+    if not isinstance(idx, int) or idx < 0:
+        raise NotRecognised("boot_time: float(line.strip().split()[i]) not found")
+    src = ast.unparse(fn)
+    if "if BOOT_TIME is None:\n" not in src or "BOOT_TIME = ret" not in src or "raise RuntimeError" not in src:
+        raise NotRecognised("boot_time: BOOT_TIME pinning / RuntimeError shape")
+    return {"key": key, "idx": idx}
+
+
+def create_uses_cached_boot(tree):
+    fn = _proc_fn(tree, "create_time")
+    for st in fn.body:
+        if isinstance(st, ast.Assign) and len(st.targets) == 1 and _is_name(st.targets[0], "bt"):
+            s = ast.unparse(st.value)
+            if s == "BOOT_TIME or boot_time()":
+                return True
+            if s == "boot_time()":
+                return False
+            raise NotRecognised("create_time: bt = %s" % s)
+    raise NotRecognised("create_time: bt not assigned")
+
+
+def threads_scan_facts(tree):
+    fn = _proc_fn(tree, "threads")
+    loops = [(i, n) for i, n in enumerate(fn.body) if isinstance(n, ast.For)]
+    if len(loops) != 1 or not _is_name(loops[0][1].iter, "thread_ids"):
+        raise NotRecognised("threads: one loop over thread_ids expected")
+    li, loop = loops[0]
+    before, after = fn.body[:li], fn.body[li + 1:]
+    listing = [s for s in before if isinstance(s, ast.Assign) and _is_name(s.targets[0], "thread_ids")]
+    if len(listing) != 1 or not ast.unparse(listing[0].value).startswith("os.listdir("):
+        raise NotRecognised("threads: thread_ids = os.listdir(..)")
+    sorts = [s for s in before if ast.unparse(s) == "thread_ids.sort()"]
+    other = [s for s in before if "thread_ids" in ast.unparse(s) and s not in listing and s not in sorts]
+    if other or "sorted(" in ast.unparse(listing[0].value) or "reverse" in ast.unparse(fn):
+        raise NotRecognised("threads: thread_ids touched in an unknown way: %s" % [ast.unparse(o) for o in other])
+    out = {"sorts": bool(sorts)}
+    skips = False
+    for t in ast.walk(loop):
+        if isinstance(t, ast.Try):
+            for h in t.handlers:
+                names = set()
+                if isinstance(h.type, ast.Tuple):
+                    names = {extract.dotted(e) for e in h.type.elts}
+                elif h.type is not None:
+                    names = {extract.dotted(h.type)}
+                body = [ast.unparse(b) for b in h.body]
+                if {"FileNotFoundError", "ProcessLookupError"} <= names and body == ["hit_enoent = True", "continue"]:
+                    skips = True
+                else:
+                    raise NotRecognised("threads: handler %s" % ast.unparse(h))
+    out["skipsVanished"] = skips
+    checks = [s for s in after if isinstance(s, ast.If) and ast.unparse(s.test) == "hit_enoent"
+              and [ast.unparse(b) for b in s.body] == ["self._raise_if_not_alive()"] and not s.orelse]
+    out["checksAlive"] = bool(checks)
+    if not isinstance(after[-1], ast.Return) or not _is_name(after[-1].value, "retlist"):
+        raise NotRecognised("threads: return retlist")
+    return out
+
+
+def runtime_regex(snap, meth, groups):
+    """Fallback when the regex is not a literal `re.compile(br'..')` default (helper functions, constants):
+    read the compiled pattern object from the imported module."""
+    ps_mod = snap_psutil(snap)
+    f = getattr(ps_mod._pslinux.Process, meth)
+    seen = 0
+    while hasattr(f, "__wrapped__") and seen < 5:
+        f = f.__wrapped__
+        seen += 1
+    pats = [d for d in (f.__defaults__ or ()) if isinstance(d, re.Pattern)]
+    if len(pats) != 1 or not isinstance(pats[0].pattern, bytes):
+        raise NotRecognised("%s: no single compiled bytes pattern among the defaults" % meth)
+    pat, flags = pats[0].pattern, pats[0].flags
+    if flags & ~(re.M) & ~re.compile(b"").flags:
+        raise NotRecognised("%s: flags %r" % (meth, flags))
+    m = _PAT.match(pat)
+    if not m:
+        raise NotRecognised("%s: pattern %r" % (meth, pat))
+    pre, key, grp = m.group(1), m.group(2), m.group(3)
+    if grp.count(rb"(\d+)") != groups:
+        raise NotRecognised("%s: %d groups" % (meth, grp.count(rb"(\d+)")))
+    if pre == b"^" and not (flags & re.M):
+        raise NotRecognised("%s: ^ without MULTILINE" % meth)
+    anchored = pre is not None
+    return key.replace(rb"\n", b"\n").replace(rb"\t", b"\t"), anchored
+
+
+def regex_facts_any(snap, tree, meth, groups):
+    try:
+        return regex_facts(tree, meth, groups)
+    except NotRecognised:
+        fn = _proc_fn(tree, meth)
+        src = ast.unparse(fn)
+        if ".findall(data)" not in src or "self._read_status_file()" not in src:
+            raise
+        return runtime_regex(snap, meth, groups)
+
+
 def facts(snap, F):
     tree = extract.parse_module(snap, "_pslinux.py")
     memo = {}
@@ -336,10 +511,30 @@ def facts(snap, F):
     F.try_add("statusBinary", "Bool", lambda: B(status_binary(tree)),
               "_read_status_file opens the file with open_binary (no universal-newline translation)")
     for nm, meth, g in (("uid", "uids", 3), ("gid", "gids", 3), ("thr", "num_threads", 1), ("ctx", "num_ctx_switches", 1)):
-        F.try_add(nm + "Key", "List Nat", lambda meth=meth, g=g: extract.lean_bytes(once(meth, lambda: regex_facts(tree, meth, g))[0]),
+        F.try_add(nm + "Key", "List Nat", lambda meth=meth, g=g: extract.lean_bytes(once(meth, lambda: regex_facts_any(snap, tree, meth, g))[0]),
                   "%s(): literal text of the regex before the (\\t(\\d+)){%d} groups" % (meth, g))
-        F.try_add(nm + "Anchored", "Bool", lambda meth=meth, g=g: B(once(meth, lambda: regex_facts(tree, meth, g))[1]),
+        F.try_add(nm + "Anchored", "Bool", lambda meth=meth, g=g: B(once(meth, lambda: regex_facts_any(snap, tree, meth, g))[1]),
                   "%s(): the regex is anchored to a line start ((?m)^ / re.MULTILINE)" % meth)
+
+    tm = lambda: once("tm", lambda: tmap_facts(snap))
+    bt = lambda: once("bt", lambda: boot_time_facts(tree))
+    ts = lambda: once("ts", lambda: threads_scan_facts(tree))
+    F.try_add("tmapGlobs", "List String", lambda: extract.lean_list([extract.lean_str(g) for g in tm()["globs"]]),
+              "_psposix.get_terminal_map: the patterns of ls = glob.glob(..) + glob.glob(..)")
+    F.try_add("tmapSkipsVanished", "Bool", lambda: B(tm()["skipsVanished"]),
+              "get_terminal_map: os.stat(name) sits in try/except FileNotFoundError: pass")
+    F.try_add("tmapChecksChr", "Bool", lambda: B(tm()["checksChr"]),
+              "get_terminal_map: only character devices (stat.S_ISCHR) enter the map")
+    F.try_add("tmapMemoized", "Bool", lambda: B(tm()["memoized"]), "get_terminal_map is decorated with @memoize")
+    F.try_add("btimeKey", "List Nat", lambda: extract.lean_bytes(bt()["key"]), "boot_time(): line.startswith(KEY)")
+    F.try_add("btimeIdx", "Nat", lambda: extract.lean_nat(bt()["idx"]), "boot_time(): float(line.strip().split()[IDX])")
+    F.try_add("createUsesCachedBoot", "Bool", lambda: B(create_uses_cached_boot(tree)),
+              "create_time(): bt = BOOT_TIME or boot_time()")
+    F.try_add("threadsSorts", "Bool", lambda: B(ts()["sorts"]), "threads(): thread_ids.sort() before the loop")
+    F.try_add("threadsSkipsVanished", "Bool", lambda: B(ts()["skipsVanished"]),
+              "threads(): except (FileNotFoundError, ProcessLookupError): hit_enoent = True; continue")
+    F.try_add("threadsChecksAlive", "Bool", lambda: B(ts()["checksAlive"]),
+              "threads(): if hit_enoent: self._raise_if_not_alive()")
 
     def statuses():
         ps_mod = snap_psutil(snap)
